@@ -167,14 +167,14 @@ def run(chk) -> None:
             return in_loop and o["detectLoop"] and not ex
         if it == "cloneChain":
             return ((in_loop and o["detectLoop"]) or o["detectChain"]) and not ex
-        if it == "cloneLetUnused":
+        if it in ("cloneLetUnused", "cloneLetMentioned"):
             return ((in_loop and o["detectLoop"]) or o["detectUnnecessary"]) and not ex
         flag = {"blockFs": "detectFs", "blockFsUse": "detectFs", "blockSleep": "detectSleep", "blockNet": "detectNet"}[it]
         return s["fn"] == "async" and not (set(inner) & wraps) and o[flag] and not ex
 
     own = {"unwrap": "unwrap-abuse", "expect": "unwrap-abuse", "unwrapChain2": "unwrap-abuse",
            "unwrapChainLines": "unwrap-abuse", "expectThenUnwrap": "unwrap-abuse", "clonePlain": "clone-abuse", "cloneChain": "clone-abuse",
-           "cloneLetUnused": "clone-abuse"}
+           "cloneLetUnused": "clone-abuse", "cloneLetMentioned": "clone-abuse"}
     for (j, sites_l, run_), (la, lb, at) in zip(meta, verdicts):
         o = spec_opts(run_["linter"], run_["opts"])
         rep = {r2["line"]: r2["n"] for r2 in run_["reported"]}
@@ -190,7 +190,7 @@ def run(chk) -> None:
                 continue
             c = {"mod": s["mod"], "fn": s["fn"], "inner": s["inner"], "item": s["item"]}
             uns = (run_["linter"] == "clone-abuse" and not any(s["inner"][i] in loops and all(x in loops for x in s["inner"][i + 1:]) for i in range(len(s["inner"]))) and bool(set(s["inner"]) & loops)) \
-                or (s["item"] == "cloneLetUnused" and any(s["inner"][i] in loops and all(x in loops for x in s["inner"][i + 1:]) for i in range(len(s["inner"]))))
+                or (s["item"] in ("cloneLetUnused", "cloneLetMentioned") and any(s["inner"][i] in loops and all(x in loops for x in s["inner"][i + 1:]) for i in range(len(s["inner"]))))
             chk.count({"site": c, "linter": run_["linter"], "opts": run_["opts"]}, nontrivial=not uns)
             if uns:
                 continue
